@@ -218,16 +218,17 @@ CLAIMED.update({
         "Coq proof + correspondence evaluated in Coq",
         "DESIGN.md 4/C19"),
     "C20": (
-        "23 Coq theorems (coq/Properties/C20.v): to_condensed symmetric, rejects the diagonal, numbers pairs in row-major "
+        "25 Coq theorems (coq/Properties/C20.v): to_condensed symmetric, rejects the diagonal, numbers pairs in row-major "
         "order 0..n(n-1)/2-1 strictly increasingly; to_squared inverse both ways (exact integer square root); pdist layout "
         "at to_condensed positions, cdist entries, metric definitions; propagate_constraints returns exactly the pairs "
         "implied by closing the cannot-link pairs under the must-link equivalence (sound and complete), raises exactly when a "
         "must-link group contains a cannot-link pair, and never exhausts the model's fuel (non-degenerate input pairs; "
         "degenerate ones tied only). l2_normalize: proved over the reals (unit norm, entries = original / norm, zero rows unchanged; "
-        "real-number axioms) and checked numerically on floats within 4 ulp by the driver.",
+        "real-number axioms) and checked numerically on floats within 4 ulp by the driver; the binary64 evaluation of to_squared (float sqrt, "
+        "truncation) is proved to return exactly the model's indices for every n <= 2^20.",
         "Trusted: Coq kernel + vm_compute; model coq/Model/Condensed.v (exact arithmetic; the float sqrt of to_squared is "
         "tied up to n = 10^7 at row starts/ends); harness running under python3-vt with the repository files loaded "
-        "through a synthetic package. The three l2_normalize theorems rely on the standard library's real-number axioms "
+        "through a synthetic package. The l2_normalize and binary64 to_squared theorems rely on the standard library's real-number axioms "
         "(sig_not_dec, sig_forall_dec, functional_extensionality_dep).",
         "Coq proof (nia over Z) + exhaustive/sampled correspondence",
         "DESIGN.md 4/C20"),
